@@ -11,7 +11,10 @@ RULE = ('worlds of 1-3 layers (+unit) x 1-4 tests with random outcome kinds '
         'Ground truth: which tests/hooks ran from trace facts; events per '
         'test calibrated against plain unittest on this interpreter. Oracle: '
         'every "Ran" line, the Total line and the two name lists (multisets) '
-        'equal the ground truth; totals agree between modes. Non-trivial = '
+        'equal the ground truth; totals agree between modes; a layer '
+        'subprocess that dies in the middle of a test (sampled: exit / '
+        'SIGKILL / SIGSEGV, any of the layers) is counted and listed as one '
+        'error, once, and the other layers still add up. Non-trivial = '
         '>=2 layers ran and >=1 non-pass outcome; distinct by (world shape, '
         'plan, options, mode).')
 ASSUMPTIONS = ['unittest semantics of the running interpreter (calibrated)',
@@ -20,7 +23,8 @@ ASSUMPTIONS = ['unittest semantics of the running interpreter (calibrated)',
                '--repeat; decorator-skipped test counted or not in tests)']
 FLOORS = {'child_stderr_chatter_tests': 50, 'ran_lines_checked': 600, 'totals_checked': 150,
           'name_lists_checked': 100, 'mode_pairs': 40, 'multi_event_tests': 50,
-          'layer_failure_cases': 20, 'import_failure_cases': 10}
+          'layer_failure_cases': 20, 'import_failure_cases': 10,
+          'crashed_child_cases': 12}
 BATCH_TIMEOUT = 400
 
 
@@ -192,6 +196,67 @@ def judge(w, spec, plan, opts, mode, V, C, truth_mod):
     return T, any_ran
 
 
+def judge_crash(w, spec, plan, opts, mode, V, C, truth_mod):
+    """One layer subprocess died (no report): that layer's own numbers are
+    unknown to the parent, everything else must still add up and the dead
+    subprocess must be counted and listed as one error, once."""
+    import vworld
+    T = truth_mod.compute(w.events, spec, plan, opts)
+    tid = plan['crash']['at'].split(':', 1)[1]
+    Lc = T.tests[tid][1] or 'UNIT'
+    full_c = vworld.full_layer_name(spec, None if Lc == 'UNIT' else Lc)
+    info = w.info
+    nimp = len(T.import_failures)
+    sumT = sumTa = sumF = sumE = sumS = nof = 0
+    want = vworld.expected_tests(spec, opts)
+    for lname, tids in want.items():
+        short = T.model.short(lname)
+        if short == Lc:
+            continue
+        d = T.layers.get(short)
+        nofact = [t for t in tids if T.tests[t][0]['kind'] == 'skip_deco']
+        if d is None:
+            if not nofact:
+                continue
+            d = {'started': {}, 'F': [], 'E': [], 'U': [], 'S': 0}
+        its = d.get('iters') or [{'tests': 0}]
+        sumT += its[-1]['tests']
+        sumTa += its[-1]['tests'] + len(nofact)
+        sumF += len(d['F']) + len(d['U'])
+        sumE += len(d['E'])
+        sumS += d['S'] + len(nofact)
+        nof += len(nofact)
+    C('crashed_child_cases')
+    if info['total'] is None:
+        V('totals-line-missing', 'counts-total-missing', mode=mode,
+          out=w.out[-600:])
+    else:
+        t, f, e, sk = info['total']
+        C('totals_checked')
+        if not (t in (sumT, sumTa) and f == sumF and
+                e == sumE + nimp + 1 and sk == sumS):
+            V('totals-differ-from-facts', 'counts-total-dead-child',
+              printed={'tests': t, 'failures': f, 'errors': e, 'skipped': sk},
+              facts={'tests_other_layers': sumT, 'with_deco_skips': sumTa,
+                     'failures': sumF, 'errors': sumE, 'dead_children': 1,
+                     'import_failures': nimp, 'skipped': sumS},
+              dead_layer=full_c, mode=mode)
+    if (opts.get('verbose') or 0) >= 1:
+        C('name_lists_checked')
+        wantF = sorted(n for L, d in T.layers.items() if L != Lc
+                       for n in d['F'] + d['U'])
+        wantE = sorted([n for L, d in T.layers.items() if L != Lc
+                        for n in d['E']] + ['subprocess for ' + full_c])
+        gotF = sorted(info['failures_list'] or [])
+        gotE = sorted(info['errors_list'] or [])
+        if gotF != wantF:
+            V('failure-name-list-differs', 'counts-failure-names',
+              got=gotF[:8], want=wantF[:8], mode=mode)
+        if gotE != wantE:
+            V('error-name-list-differs', 'counts-error-names-dead-child',
+              got=gotE[:8], want=wantE[:8], mode=mode)
+
+
 def run_case(case):
     import common
     import gen
@@ -291,9 +356,32 @@ def run_case(case):
                 {'ph': 'setUp', 'do': 'sleep', 's': 0.4}]
             other = ('par-stop', p2, o2)
             C('stop_on_error_par_runs')
+        crash = None
+        if other and other[0] in ('par', 'resume') and len(T.layers) >= 2 \
+                and not opts.get('repeat') and not T.units \
+                and rng.random() < 0.6:
+            # one of the layer subprocesses dies in the middle of a test
+            # (no report): it is one error, counted and listed once - also
+            # when it is not the last subprocess the parent looks at
+            mode, p2, o2 = other
+            runnable = sorted(
+                t for t, (ts, l, m, n) in T.tests.items()
+                if ts['kind'] not in ('skip_deco', 'skip_setup',
+                                      'setup_error', 'setup_fail')
+                and T.layers.get(l or 'UNIT', {}).get('started', {}).get(t))
+            if runnable:
+                crash = {'at': 'test.body:' + rng.choice(runnable),
+                         'how': rng.choice(['exit3', 'SIGKILL', 'exit0',
+                                            'SIGSEGV'])}
+                keep_l = {ln: {'tearDown': 'nie'}
+                          for ln, h in (p2.get('layers') or {}).items()
+                          if h.get('tearDown') == 'nie'}
+                p2 = {'tests': dict(plan.get('tests') or {}),
+                      'layers': keep_l, 'crash': crash}
+                other = (mode + '-crash', p2, o2)
         if other:
             mode, p2, o2 = other
-            if rng.random() < 0.6:
+            if rng.random() < 0.6 and not crash:
                 # the tests chatter on the real stderr of the subprocess
                 # (complete, non-header lines; some after the report)
                 p2, nn = gen.benign_child_stderr(rng, p2, sorted(T.tests))
@@ -302,6 +390,8 @@ def run_case(case):
             if wo.raised is not None:
                 V('run-aborted', 'run-raised', mode=mode,
                   tb=(wo.raised_tb or '')[-700:])
+            elif crash and any(e['k'] == 'crash' for e in wo.events):
+                judge_crash(wo, spec, p2, o2, mode, V, C, truth)
             else:
                 judge(wo, spec, p2, o2, mode, V, C, truth)
                 C('mode_pairs')
